@@ -250,8 +250,10 @@ Proof. intros s r w m s' o H. unfold _send_initially in H. eapply send_via_trans
 Lemma continue_loop_no_delivery : forall r fuel s s' o x, _continue_backlog_loop fuel s r = (s', o, x) -> no_deliv o.
 Proof.
   intros r. induction fuel as [|f IH]; intros s s' o x H; cbn [_continue_backlog_loop] in H; [invpairs; constructor|].
-  destruct (exchanges s); [|invpairs; constructor]. destruct (has_exchange r l); [invpairs; constructor|].
-  destruct (alookup Z.eqb r (backlogs s)) as [[|[w m] rest]|]; try (invpairs; repeat constructor; fail).
+  destruct (exchanges s); [|invpairs; constructor].
+  destruct (alookup Z.eqb r (backlogs s)) as [bl|]; [|invpairs; constructor].
+  destruct (has_exchange r l); [invpairs; constructor|].
+  destruct bl as [|[w m] rest]; [invpairs; constructor|].
   destruct (_send_initially _ r w (Some m)) as [s1 o1] eqn:S. apply send_initially_no_delivery in S.
   destruct (_continue_backlog_loop f s1 r) as [[s2 o2] x2] eqn:L. apply IH in L. invpairs. apply Forall_app; split; assumption.
 Qed.
@@ -288,8 +290,10 @@ Lemma continue_loop_frame : forall r fuel s s' o x, refuses s r = false -> _cont
   outgoing s' = outgoing s /\ reqs s' = reqs s /\ tmst s' = tmst s /\ refusing s' = refusing s /\ Forall ml_out o.
 Proof.
   intros r. induction fuel as [|f IH]; intros s s' o x Hr H; cbn [_continue_backlog_loop] in H; [invpairs; repeat split; constructor|].
-  destruct (exchanges s); [|invpairs; repeat split; constructor]. destruct (has_exchange r l); [invpairs; repeat split; constructor|].
-  destruct (alookup Z.eqb r (backlogs s)) as [[|[w m] rest]|]; try (invpairs; repeat split; repeat constructor; fail).
+  destruct (exchanges s); [|invpairs; repeat split; constructor].
+  destruct (alookup Z.eqb r (backlogs s)) as [bl|]; [|invpairs; repeat split; constructor].
+  destruct (has_exchange r l); [invpairs; repeat split; constructor|].
+  destruct bl as [|[w m] rest]; [invpairs; repeat split; constructor|].
   destruct (_send_initially _ r w (Some m)) as [s1 o1] eqn:S. apply send_initially_frame in S; [|exact Hr].
   destruct S as (S1 & S2 & S3 & S4 & S5). cbn in S1, S2, S3, S4.
   destruct (_continue_backlog_loop f s1 r) as [[s2 o2] x2] eqn:L. apply IH in L; [|unfold refuses in *; rewrite S4; exact Hr].
@@ -399,6 +403,90 @@ Proof.
       repeat (destruct Hin as [<-|Hin]; try discriminate); try contradiction; try nd.
 Qed.
 
+(* ------------------------------------------------------------------ the message layer only ever REMOVES table entries *)
+Definition shrinks (s s' : st) : Prop :=
+  match outgoing s, outgoing s' with
+  | Some og, Some og' => forall k, alookup key_eqb k og' = alookup key_eqb k og \/ alookup key_eqb k og' = None
+  | None, None => True
+  | _, _ => False
+  end.
+Lemma shrinks_refl : forall s, shrinks s s.
+Proof. intros s. unfold shrinks. destruct (outgoing s); [left; reflexivity|exact I]. Qed.
+Lemma shrinks_eq : forall s s', outgoing s' = outgoing s -> shrinks s s'.
+Proof. intros s s' H. unfold shrinks. rewrite H. destruct (outgoing s); [left; reflexivity|exact I]. Qed.
+Lemma shrinks_trans : forall s s1 s2, shrinks s s1 -> shrinks s1 s2 -> shrinks s s2.
+Proof.
+  intros s s1 s2 H1 H2. unfold shrinks in *. destruct (outgoing s), (outgoing s1), (outgoing s2); try contradiction; try exact I.
+  intros k. destruct (H2 k) as [E|E]; [rewrite E; apply H1|right; exact E].
+Qed.
+Lemma alookup_fold_aremove : forall ks (og : list (key * Z)) k,
+  alookup key_eqb k (fold_left (fun l k => aremove key_eqb k l) ks og) = alookup key_eqb k og \/
+  alookup key_eqb k (fold_left (fun l k => aremove key_eqb k l) ks og) = None.
+Proof.
+  induction ks as [|k0 r IH]; intros og k; cbn [fold_left]; [left; reflexivity|].
+  destruct (IH (aremove key_eqb k0 og) k) as [E|E]; [|right; exact E].
+  rewrite E, alookup_aremove by exact key_eqb_spec. destruct (key_eqb k k0); [right|left]; reflexivity.
+Qed.
+Lemma add_event_shrinks : forall s q ev s' o, _add_event s q ev = (s', o) -> shrinks s s'.
+Proof.
+  intros s q ev s' o H. unfold _add_event in H. destruct (get_req s q); [|invpairs; apply shrinks_refl].
+  destruct (pipe_add_event q c ev) as [[c' o'] ks]. invpairs. unfold shrinks. rewrite pop_keys_outgoing.
+  cbn [outgoing upd_req set_reqs]. destruct (outgoing s); [|exact I]. intros k. apply alookup_fold_aremove.
+Qed.
+Lemma run_stoppers_shrinks : forall e qs s s' o, run_stoppers s qs e = (s', o) -> shrinks s s'.
+Proof.
+  intros e. induction qs as [|q rest IH]; intros s s' o H; cbn [run_stoppers] in H; [invpairs; apply shrinks_refl|].
+  destruct (add_exception s q e) as [s1 o1] eqn:A. apply add_event_shrinks in A.
+  destruct (run_stoppers s1 rest e) as [s2 o2] eqn:R. apply IH in R. invpairs. eapply shrinks_trans; eauto.
+Qed.
+Lemma mm_dispatch_error_shrinks : forall s k r s' o, mm_dispatch_error s k r = (s', o) -> shrinks s s'.
+Proof.
+  intros s k r s' o H. unfold mm_dispatch_error, tm_dispatch_error in H. destruct (exchanges s); [|invpairs; apply shrinks_refl].
+  destruct (outgoing s) eqn:Hog; [|invpairs; apply shrinks_eq; reflexivity].
+  destruct (run_stoppers s _ (wrap_error k)) as [s1 o1] eqn:R. apply run_stoppers_shrinks in R. invpairs.
+  eapply shrinks_trans; [exact R|apply shrinks_eq; reflexivity].
+Qed.
+Lemma send_via_transport_shrinks : forall s r w s' o, _send_via_transport s r w = (s', o) -> shrinks s s'.
+Proof.
+  intros s r w s' o H. unfold _send_via_transport in H. destruct (refuses s r); [eapply mm_dispatch_error_shrinks; eauto|invpairs; apply shrinks_refl].
+Qed.
+Lemma send_initially_shrinks : forall s r w m s' o, _send_initially s r w m = (s', o) -> shrinks s s'.
+Proof.
+  intros s r w m s' o H. unfold _send_initially in H. apply send_via_transport_shrinks in H.
+  eapply shrinks_trans; [|exact H]. apply shrinks_eq. destruct (w_mtype w =? CON); [destruct m|]; try reflexivity. apply add_exchange_frame.
+Qed.
+Lemma continue_loop_shrinks : forall r fuel s s' o x, _continue_backlog_loop fuel s r = (s', o, x) -> shrinks s s'.
+Proof.
+  intros r. induction fuel as [|f IH]; intros s s' o x H; cbn [_continue_backlog_loop] in H; [invpairs; apply shrinks_refl|].
+  destruct (exchanges s); [|invpairs; apply shrinks_refl].
+  destruct (alookup Z.eqb r (backlogs s)) as [bl|]; [|invpairs; apply shrinks_refl].
+  destruct (has_exchange r l); [invpairs; apply shrinks_refl|].
+  destruct bl as [|[w m] rest]; [invpairs; apply shrinks_eq; reflexivity|].
+  destruct (_send_initially _ r w (Some m)) as [s1 o1] eqn:S. apply send_initially_shrinks in S.
+  destruct (_continue_backlog_loop f s1 r) as [[s2 o2] x2] eqn:L. apply IH in L. invpairs.
+  eapply shrinks_trans; [|exact L]. eapply shrinks_trans; [|exact S]. apply shrinks_eq. reflexivity.
+Qed.
+Lemma remove_exchange_shrinks : forall s r w s' o x, _remove_exchange s r w = (s', o, x) -> shrinks s s'.
+Proof.
+  intros s r w s' o x H. unfold _remove_exchange in H.
+  destruct (exchanges s); [|invpairs; apply shrinks_refl].
+  destruct (alookup rm_eqb (r, w_mid w) l); [|invpairs; apply shrinks_refl].
+  destruct (if w_mtype w =? RST then _ else _) as [s2 o2] eqn:A.
+  destruct (_continue_backlog s2 r) as [[s3 o3] x3] eqn:C. invpairs.
+  assert (S2 : shrinks s s2).
+  { destruct (w_mtype w =? RST); [apply add_event_shrinks in A; eapply shrinks_trans; [|exact A]; apply shrinks_eq; reflexivity|invpairs; apply shrinks_eq; reflexivity]. }
+  eapply shrinks_trans; [exact S2|]. unfold _continue_backlog in C.
+  destruct (alookup Z.eqb r (backlogs s2)); [eapply continue_loop_shrinks; eauto|invpairs; apply shrinks_refl].
+Qed.
+Lemma shrinks_unmatched : forall s s' og tok r, shrinks s s' -> outgoing s = Some og -> matching og tok r = None ->
+  exists og', outgoing s' = Some og' /\ matching og' tok r = None.
+Proof.
+  intros s s' og tok r H Hog M. unfold shrinks in H. rewrite Hog in H. destruct (outgoing s') as [og'|]; [|contradiction].
+  exists og'. split; [reflexivity|]. unfold matching in *.
+  destruct (alookup key_eqb (tok, Some r) og) eqn:L1; [discriminate|].
+  destruct (H (tok, Some r)) as [E|E]; rewrite E, ?L1; destruct (H (tok, None)) as [E2|E2]; rewrite E2; try exact M; reflexivity.
+Qed.
+
 (* ------------------------------------------------------------------ replies to responses *)
 Ltac dm_head Hcon Hresp :=
   unfold dispatch_message;
@@ -433,16 +521,15 @@ Proof.
   rewrite (process_response_spec s r w og Hog), M. reflexivity.
 Qed.
 (* an unmatched piggy-backed response only has its message-layer effect (the exchange with that mid ends) *)
-Lemma unmatched_ack_lemma : forall s r mcl w og, outgoing s = Some og -> refuses s r = false ->
+Lemma unmatched_ack_lemma : forall s r mcl w og, outgoing s = Some og ->
   is_response (w_code w) = true -> w_mtype w = ACK -> matching og (w_token w) r = None ->
   dispatch_message s r mcl w = fst (_remove_exchange s r w).
 Proof.
-  intros s r mcl w og Hog Hr Hresp Hack M. dm_head Hack Hresp.
+  intros s r mcl w og Hog Hresp Hack M. dm_head Hack Hresp.
   destruct (_remove_exchange s r w) as [[s1 o1] x1] eqn:RE. cbn [fst snd].
   destruct x1; [reflexivity|].
-  assert (Hog1 : outgoing s1 = Some og).
-  { eapply remove_exchange_ack in RE; [destruct RE as (-> & _); exact Hog|exact Hr|rewrite Hack; discriminate]. }
-  rewrite (process_response_spec s1 r w og Hog1), M. rewrite app_nil_r. reflexivity.
+  apply remove_exchange_shrinks in RE. destruct (shrinks_unmatched s s1 og (w_token w) r RE Hog M) as (og1 & Hog1 & M1).
+  rewrite (process_response_spec s1 r w og1 Hog1), M1. rewrite app_nil_r. reflexivity.
 Qed.
 (* a matched CON response is acknowledged exactly once (and not reset); nothing else is put on the wire *)
 Lemma matched_con_acked_lemma : forall s r mcl w og q, outgoing s = Some og -> refuses s r = false ->
